@@ -3,7 +3,7 @@
 agent's deliverables in /tmp/wt and the mutest output in /tmp/mt."""
 import json, os, re, shutil, sys
 pid, letter = sys.argv[1], sys.argv[2]
-src = "/tmp/wt/%s.%s" % (pid, letter)
+src = "%s/%s.%s" % (os.environ.get("SEED_SRC", "/tmp/wt"), pid, letter)
 out = open("/tmp/mt/%s%s.out" % (pid, letter)).read()
 d = "/verif/seeded/%s-%s" % (pid, letter)
 os.makedirs(d, exist_ok=True)
